@@ -3,6 +3,7 @@ package main
 import (
 	"fmt"
 	"go/token"
+	"go/types"
 	"sort"
 	"strings"
 
@@ -416,6 +417,7 @@ func c16(r *Report) {
 			// once a synthetic value is stored, the raw copy loop does not run again
 			ok = g.PathTo([]ssa.Instruction{syn[0]}, false, nil, func(i ssa.Instruction) bool { return i == raw[0] }) == nil
 		}
+		headerMapKeysRule(r)
 		r.Decide("path", "(*M/proxyutil.Header).Map: synthetic Host / Content-Length / Transfer-Encoding are written after the raw header copy", ok, "raw copy first, synthetic values last", "the raw header map is copied over the synthetic values: a stale Content-Length entry of a wire-parsed message wins over the true length in HAR entries", mp.Pos())
 	})
 
@@ -484,7 +486,71 @@ func c16(r *Report) {
 					okU = true
 				}
 			}
+			// the whole text is validated, not a prefix of it
+			for _, f := range w.Funcs("har") {
+				for _, c := range plainCalls(f, "unicode/utf8.ValidString", "unicode/utf8.Valid") {
+					whole := true
+					for _, l := range resolveAll(c.Call.Args[0]) {
+						l = unwrapConv(l)
+						if _, isSl := l.(*ssa.Slice); isSl {
+							whole = false
+						}
+					}
+					r.Decide("flow", fnName(f)+": the UTF-8 test covers the whole text", whole, "utf8.ValidString(<the text>)", "only a slice (prefix) of the text is validated: a body whose first bytes are valid UTF-8 and whose later bytes are not is written as a JSON string, and the invalid bytes come back as U+FFFD", c.Pos())
+				}
+			}
 			r.Decide("path", "M/har.PostData.MarshalJSON: text that is not valid UTF-8 is written in the binary (base64) form", okU, "branches on utf8.ValidString", "non-UTF-8 bodies are written as JSON strings and mangled", m.Pos())
+		}
+	})
+
+	r.Guard("C16.R2", "list conversions carry nothing from one element to the next", func() {
+		// in the converters that turn a list of the message (cookies, headers, query and form
+		// parameters) into HAR records, a field of a record is computed from the element of
+		// this iteration: its value does not pass through a variable that lives across
+		// iterations (a loop-header phi), which would leak the previous element's value
+		n := 0
+		for _, f := range w.Funcs("har") {
+			for _, in := range instrs(f) {
+				st, ok := in.(*ssa.Store)
+				if !ok || !inLoop(st.Block()) {
+					continue
+				}
+				fa, ok := st.Addr.(*ssa.FieldAddr)
+				if !ok {
+					continue
+				}
+				if _, isAlloc := fa.X.(*ssa.Alloc); !isAlloc {
+					if _, isIdx := fa.X.(*ssa.IndexAddr); !isIdx {
+						continue
+					}
+				}
+				if bt, isB := st.Val.Type().Underlying().(*types.Basic); !isB || bt.Info()&(types.IsString|types.IsNumeric|types.IsBoolean) == 0 {
+					continue
+				}
+				n++
+				carried := false
+				seen := map[ssa.Value]bool{}
+				var walk func(v ssa.Value)
+				walk = func(v ssa.Value) {
+					ph, isPhi := v.(*ssa.Phi)
+					if !isPhi || seen[v] {
+						return
+					}
+					seen[v] = true
+					for k, e := range ph.Edges {
+						// an edge coming from a block the phi's block dominates is a back edge
+						if ph.Block().Dominates(ph.Block().Preds[k]) {
+							carried = true
+						}
+						walk(e)
+					}
+				}
+				walk(st.Val)
+				r.Decide("flow", fmt.Sprintf("%s: %s.%s is computed from this iteration's element (#%d)", fnName(f), namedOf(fa.X.Type()), fieldObj(fa).Name(), n), !carried, "no loop-carried variable on the way to the field", "the value stored in the record passes through a variable that survives from one loop iteration to the next: an element for which it is not set anew is logged with its predecessor's value", st.Pos())
+			}
+		}
+		if n == 0 {
+			r.Note("C16.R2: no scalar record field is stored inside a loop in package har")
 		}
 	})
 
@@ -769,4 +835,42 @@ func capturedValue(cell *ssa.Alloc) ssa.Value {
 		return nil
 	}
 	return last.Val
+}
+
+// headerMapKeysRule: (*proxyutil.Header).Map copies the message's own header
+// entries under the names they have in the message: the key of the raw copy is
+// the range key itself, not a function of it (canonicalising merges entries
+// that differ in case and renames what is logged). Shared by C16.R6 and C19.R4.
+func headerMapKeysRule(r *Report) {
+	w := r.W
+	mp := w.method(w.Named("proxyutil", "Header"), "Map")
+	if mp == nil || mp.Blocks == nil {
+		r.Undecided("M/proxyutil.Header.Map", "UNRESOLVED")
+		return
+	}
+	r.Touch(mp)
+	n, okKeys := 0, true
+	for _, in := range instrs(mp) {
+		mu, ok := in.(*ssa.MapUpdate)
+		if !ok {
+			continue
+		}
+		if anyIn(w.backSlice(mu.Value, flowOpt{}), func(v ssa.Value) bool {
+			return isCallValue(v, "(*M/proxyutil.Header).All") || isExtractOfCall(v, "(*M/proxyutil.Header).All")
+		}) {
+			continue
+		}
+		n++
+		for _, k := range resolveAll(mu.Key) {
+			ex, isEx := k.(*ssa.Extract)
+			if !isEx {
+				okKeys = false
+				continue
+			}
+			if _, isNext := ex.Tuple.(*ssa.Next); !isNext {
+				okKeys = false
+			}
+		}
+	}
+	r.Decide("flow", "(*M/proxyutil.Header).Map copies the message's header entries under their own names", n > 0 && okKeys, "the raw copy stores under the range key itself", "the raw header copy stores under a transformed key (canonicalised, lower-cased): entries whose names differ only in case collapse into one and lose values, and names are logged in a spelling the message does not have", mp.Pos())
 }
